@@ -820,6 +820,68 @@ impl C13 {
                 }
             }
         }
+        // --- PacketBuilder .tcp(..).options(..): one more encoding door, also on top of earlier options
+        if rng.chance(1, 8) {
+            rep.evals += 1;
+            shell::progress_entry(1303);
+            let entry = "PacketBuilder::tcp().options";
+            let with_prior = rng.bool();
+            let res = shell::guarded(|| {
+                let step = etherparse::PacketBuilder::ipv4([1, 2, 3, 4], [5, 6, 7, 8], 20).tcp(1, 2, 3, 4);
+                let step = if with_prior {
+                    step.options(&[TcpOptionElement::MaximumSegmentSize(0x1234), TcpOptionElement::WindowScale(3)]).unwrap()
+                } else {
+                    step
+                };
+                match step.options(elems) {
+                    Ok(b) => {
+                        let mut out = Vec::new();
+                        b.write(&mut out, &[]).map_err(|e| format!("{:?}", e))?;
+                        Ok(Some(out))
+                    }
+                    Err(TcpOptionWriteError::NotEnoughSpace(n)) => Err::<Option<Vec<u8>>, String>(format!("NotEnoughSpace({})", n)),
+                }
+            });
+            match res {
+                Err(p) => {
+                    self.panic(rep, entry, &p, &raw);
+                    return;
+                }
+                Ok(Err(e)) => {
+                    if fits || e != format!("NotEnoughSpace({})", need) {
+                        rep.violation(
+                            &format!("list|{}|{}", if fits { "rejected_fitting" } else { "required_size" }, entry),
+                            format!("{}: the list needs {} octets, {} reported", entry, need, e),
+                            &raw,
+                        );
+                        return;
+                    }
+                    rep.count("builder_options.rejected");
+                }
+                Ok(Ok(Some(out))) => {
+                    // IPv4 header (20) + TCP header
+                    let tcp = &out[20..];
+                    let hl = 4 * (tcp[12] >> 4) as usize;
+                    if !fits || hl != 20 + want.len() || tcp.len() != hl || tcp[20..hl] != want[..] {
+                        rep.violation(
+                            &format!("list|encoding|{}", entry),
+                            format!(
+                                "{}{}: the written TCP header carries options {} (data offset {}), reference encoding + padding is {}",
+                                entry,
+                                if with_prior { " (after an earlier .options call)" } else { "" },
+                                hex(&tcp[20.min(tcp.len())..hl.min(tcp.len())]),
+                                hl / 4,
+                                hex(&want)
+                            ),
+                            &raw,
+                        );
+                        return;
+                    }
+                    rep.count(if with_prior { "builder_options.replaced_earlier_options" } else { "builder_options.accepted" });
+                }
+                Ok(Ok(None)) => {}
+            }
+        }
         // distinct behaviour: engine, set of element shapes, size class, verdict. Non-trivial:
         // at least one element.
         if !elems.is_empty() {
@@ -1090,18 +1152,18 @@ impl Monitor for C13 {
             // every list of 0..=depth elements over the nine element shapes
             ("list_exh", tier.pick(list_domain(QUICK_LIST_DEPTH), list_domain(THOROUGH_LIST_DEPTH))),
             // lists with a chosen encoded size around the 40 octet limit
-            ("list_fit", tier.pick(1_500_000, 15_000_000)),
-            ("list_rand", tier.pick(1_000_000, 10_000_000)),
+            ("list_fit", tier.pick(1_500_000, 150_000_000)),
+            ("list_rand", tier.pick(1_000_000, 100_000_000)),
             // all byte strings of length 0, 1, 2
             ("raw_exh", 1 + 256 + 65_536),
             // all byte strings of length 3
             ("raw_exh3", 1 << 24),
             // every (kind, length octet, octets left 2..=40) behind a valid prefix
             ("raw_klr", tier.pick(KLR_DOMAIN, 4 * KLR_DOMAIN)),
-            ("raw_grammar", tier.pick(2_000_000, 20_000_000)),
-            ("raw_rand", tier.pick(1_500_000, 15_000_000)),
-            ("raw_mut", tier.pick(1_500_000, 15_000_000)),
-            ("api", tier.pick(500_000, 5_000_000)),
+            ("raw_grammar", tier.pick(2_000_000, 200_000_000)),
+            ("raw_rand", tier.pick(1_500_000, 150_000_000)),
+            ("raw_mut", tier.pick(1_500_000, 150_000_000)),
+            ("api", tier.pick(500_000, 50_000_000)),
         ]
     }
 
